@@ -2,6 +2,7 @@ SPECIFICATION Spec
 CONSTANT Part = "machine"
 CONSTANT Deviation = "FitIgnoresBounds"
 CONSTANT MaxDepth = 3
+CONSTANT Rebounds = FALSE
 CONSTANT Export = FALSE
 INVARIANT C05_FitResult
 CHECK_DEADLOCK FALSE
